@@ -168,8 +168,10 @@ def check_data_consistency(pdf: pd.DataFrame,
     # 1 - A non-detection should not be coincident with a detection
     # 2 - A VV hit should not be coincident with a hit or a non-detection
     for hit_type in [0, -1]:
-        nodets = data[data['type'] == hit_type][['dt', 'ceilo']]
-        dets = data[data['type'] != hit_type][['dt', 'ceilo']]
+        # Note: drop the index, that may carry the name of one of the columns (e.g. after a
+        # set_index('dt', drop=False)), which pandas refuses to merge on.
+        nodets = data[data['type'] == hit_type][['dt', 'ceilo']].reset_index(drop=True)
+        dets = data[data['type'] != hit_type][['dt', 'ceilo']].reset_index(drop=True)
         merged = dets.merge(nodets, how='inner', on=['dt', 'ceilo'])
         if len(merged) > 0:
             raise AmpycloudError('Inconsistent input data '
